@@ -12,7 +12,7 @@ wt = f"/tmp/wt/{os.environ.get('WT_PREFIX', '')}{cid}"
 rnd = os.environ.get("SEED_ROUND", "")
 src = f"{wt}/SEEDED/{mut}"
 out = f"/verif/seeded/{cid}-{rnd}{mut}"
-v = subprocess.run(["/verif/tools/seed/verify.sh", wt, src, dest, run, moddir], stdout=subprocess.PIPE, stderr=subprocess.STDOUT, text=True).stdout
+v = subprocess.run(["/verif/tools/seed/verify.sh", wt, src, dest, run, moddir], stdout=subprocess.PIPE, stderr=subprocess.STDOUT, text=True, errors="replace").stdout
 m = re.search(r"RESULT base_demo=(\w+) suite_with_patch=(\w+) demo_with_patch=(\w+)", v)
 print(v[-1500:])
 if not m:
@@ -21,7 +21,7 @@ base, suite, demo = m.groups()
 ok = (base, suite, demo) == ("pass", "pass", "fail")
 res = {}
 if ok:
-    r = subprocess.run(["/verif/tools/seed/run.sh", f"{src}/patch.diff"] + checks.split(","), stdout=subprocess.PIPE, stderr=subprocess.STDOUT, text=True, env=dict(os.environ, TIER=os.environ.get("TIER", "quick"))).stdout
+    r = subprocess.run(["/verif/tools/seed/run.sh", f"{src}/patch.diff"] + checks.split(","), stdout=subprocess.PIPE, stderr=subprocess.STDOUT, text=True, errors="replace", env=dict(os.environ, TIER=os.environ.get("TIER", "quick"))).stdout
     print(r)
     for line in r.splitlines():
         mm = re.match(r"(C\d\d) rc=(\d+) ?(.*)", line)
